@@ -442,6 +442,8 @@ func ruleR2VMTypestate(c *Ctx) []Obligation {
 	// round 3: typestate of Core.Run and searches over the VM's stacks
 	obs = append(obs, r3emRunObligations(c, r, cs)...)
 	obs = append(obs, r3emStackSearches(c, r, []*types.Var{handlers, r.callStack.field})...)
+	// round 6: the handler stack is observed only at its top
+	obs = append(obs, r6emHandlerTopOnly(c, r, handlers)...)
 	// inventory of other writers (information)
 	for _, x := range []struct {
 		f     *types.Var
